@@ -76,6 +76,14 @@ const (
 	kNTS         = 3 // a = variant; data[0] = first header byte
 	kParallel    = 5 // data = items (1-byte sender, 2-byte length, payload): written round-robin to several listener goroutines at once
 	kBurst       = 4 // data = items (2-byte length, payload) or (0xffff, NTS variant, first byte): sent back to back
+	kRaw         = 6 // SCION listener only: data = the whole underlay datagram (garbage or SCMP); a = what it is (rawGarbage ...)
+)
+
+// what a raw datagram is, by construction
+const (
+	rawGarbage   = 0 // not a SCION packet, or not one a listener handles: nothing comes back
+	rawSCMPReq   = 1 // SCMP echo or traceroute request over a reversible path: one SCMP reply, no NTP reply
+	rawSCMPOther = 2 // any other SCMP message: nothing comes back
 )
 
 type hdrSpec struct {
@@ -86,6 +94,8 @@ type hdrSpec struct {
 	pathRaw          []byte
 	udpSrc, udpDst   uint16
 	underlay         uint16
+	ext              uint8 // extension headers of the request, see extLayers
+	fwd              int   // > 0: addressed to the harness socket fwd-1 on the listener's host (dispatcher forwarding)
 }
 
 type step struct {
@@ -99,7 +109,7 @@ type step struct {
 func (h *hdrSpec) String() string {
 	return lib.L(lib.U(h.dstIA), lib.U(h.srcIA), lib.U(uint64(h.dstType)), lib.U(uint64(h.srcType)),
 		lib.B(h.dstRaw), lib.B(h.srcRaw), lib.U(uint64(h.pathType)), lib.B(h.pathRaw),
-		lib.U(uint64(h.udpSrc)), lib.U(uint64(h.udpDst)), lib.U(uint64(h.underlay)))
+		lib.U(uint64(h.udpSrc)), lib.U(uint64(h.udpDst)), lib.U(uint64(h.underlay)), lib.U(uint64(h.ext)), lib.I(int64(h.fwd)))
 }
 
 func stepsString(steps []step) string {
@@ -125,11 +135,14 @@ func stepsFromArgs(args string) []step {
 			continue
 		}
 		s := step{sender: int(v.l[0].z), k: int(v.l[1].z), a: v.l[2].z, data: v.l[3].b}
-		if len(v.l) >= 5 && v.l[4].isList && len(v.l[4].l) == 11 {
+		if len(v.l) >= 5 && v.l[4].isList && len(v.l[4].l) >= 11 {
 			h := v.l[4].l
 			s.hdr = &hdrSpec{dstIA: uint64(h[0].z), srcIA: uint64(h[1].z), dstType: uint8(h[2].z), srcType: uint8(h[3].z),
 				dstRaw: h[4].b, srcRaw: h[5].b, pathType: uint8(h[6].z), pathRaw: h[7].b,
 				udpSrc: uint16(h[8].z), udpDst: uint16(h[9].z), underlay: uint16(h[10].z)}
+			if len(h) >= 13 {
+				s.hdr.ext, s.hdr.fwd = uint8(h[11].z), int(h[12].z)
+			}
 		}
 		steps = append(steps, s)
 	}
